@@ -47,6 +47,7 @@ def plan(tier, seed):
     for f, w in catalogue.WEIGHTS.items():
         fams += [f] * w
     cases = [{"family": fams[i % len(fams)], "i": i} for i in range(n)]
+    cases += [{"family": "nearspan", "i": i} for i in range(60 if tier == "quick" else 600)]
     # the repository's own example scripts as end-to-end workloads under the purity monitors
     ex, _ = _examples()
     for mesh in ([(12, 6, 4)] if tier == "quick" else [(12, 6, 4), (8, 8, 2), (16, 4, 4)]):
@@ -139,9 +140,48 @@ def _cmp(ga, gb):
     return worst
 
 
+def run_nearspan(case, ctx):
+    """LinSolve re-uses stored solutions (LDAWrapper, documented default tolerance 1e-7).  A seed a*w1 + b*w2 whose second part is
+    small but well above that tolerance must still contribute b*g(w2): linearity may only be lost below the wrapper tolerance."""
+    import pymoto as pym
+    from ..oracles import matgen
+    rng = ctx.rng("nearspan", case["i"])
+    n = int(rng.integers(4, 14))
+    cls = str(rng.choice(["spd", "sym", "gen", "hpd", "csym"]))
+    A = matgen.make(rng, cls, n, cond=10 ** rng.uniform(0, 2))
+    cp = np.iscomplexobj(A)
+    st = str(rng.choice(["dense", "csc"]))
+    b = rng.standard_normal(n) + (1j * rng.standard_normal(n) if cp else 0)
+    m = pym.LinSolve([pym.Signal("A", matgen.to_storage(A, st)), pym.Signal("b", b)], pym.Signal("x"))
+    m.response()
+    w2 = rng.standard_normal(n) + (1j * rng.standard_normal(n) if cp else 0)
+    eps = float(10 ** rng.uniform(-5.7, -3))          # relative size of the second part: >= 20 x the documented tolerance 1e-7
+    # w1: something the wrapper can answer from its database (for A = A^T the primal rhs; otherwise the seed solved just before)
+    w1 = b.copy() if cls in ("spd", "sym", "csym") else rng.standard_normal(n) + (1j * rng.standard_normal(n) if cp else 0)
+
+    def bp(w):
+        m.sig_out[0].sensitivity = w.copy()
+        m.sensitivity()
+        g = np.array(m.sig_in[1].sensitivity)
+        m.reset()
+        return g
+    g1 = bp(w1)
+    bcoef = eps * np.linalg.norm(w1) / np.linalg.norm(w2)
+    g12 = bp(w1 + bcoef * w2)
+    g2 = bp(w2)
+    err = np.linalg.norm(g12 - (g1 + bcoef * g2)) / np.linalg.norm(bcoef * g2)
+    ctx.count("nearspan_checks")
+    if not err <= 0.05:
+        raise Violation("not-linear-in-seed/LinSolve-drops-small-seed-component-above-wrapper-tolerance", rel_size_of_component=eps,
+                        fraction_of_its_contribution_lost=float(err), cls=cls, storage=st)
+    return {"key": f"nearspan/{cls}/{st}", "nontrivial": True, "obs": {"eps": eps, "lost_fraction": float(err)}}
+
+
 def run_case(case, ctx):
     if case["family"] == "example":
         return run_example(case, ctx)
+    if case["family"] == "nearspan":
+        return run_nearspan(case, ctx)
     rng = ctx.rng("c04", case["family"], case["i"])
     with warnings.catch_warnings():
         warnings.simplefilter("ignore")
@@ -159,7 +199,9 @@ def run_case(case, ctx):
             mask = [bool(b) for b in rng.integers(0, 2, nout)]
             if not any(mask):
                 mask[0] = True
-        return [(cfg.seed_gen(rng, y0[j], j) if cfg.seed_gen else rand_like(rng, todense(y0[j]))) if mask[j] else None for j in range(nout)]
+        out = [(cfg.seed_gen(rng, y0[j], j) if cfg.seed_gen else rand_like(rng, todense(y0[j]))) if mask[j] else None for j in range(nout)]
+        # scalar seeds are sometimes handed over as (mutable) 0-d arrays
+        return [np.array(w) if (w is not None and np.ndim(w) == 0 and not hasattr(w, "todense") and rng.random() < 0.5) else w for w in out]
 
     def backprop(w, times=1):
         st = _states(mod)
